@@ -139,6 +139,9 @@ def gen_op(rng, sw, last_sample):
                   use_previous=rng.random() < 0.6)
         if op["method"] == "exact" and rng.random() < 0.4:
             op["bounds"] = rng.choice([[1.1, 3.0], [2.0, 6.0], [1.5, 2.0], [3.0, 4.5]])
+        if op["method"] != "exact" and rng.random() < 0.2:
+            # cmin is a real number ("only counts >= cmin are included in fit", default 1.0): thresholds between two integers
+            op["cmin_frac"] = rng.choice([0.25, 0.4, 0.5, 0.75, 0.1])
         if op["method"] == "exact" and rng.random() < 0.25:
             # keyword arguments are "passed on to scipy.optimize.minimize_scalar": an iteration cap that stops the optimiser early makes it
             # report failure (the library raises "fitting failed" - allowed); whatever IS returned must still be a maximiser within the bounds
@@ -606,6 +609,9 @@ def execute(trace, ctx=None):
                 xmin = sp["xmin"]
             c = c[np.isfinite(c)]
             cmin = max(1, xmin + op["cmin_offset"])
+            if op.get("cmin_frac") and op["method"] != "exact":
+                cmin = cmin + float(op["cmin_frac"])
+                stats["mle_non_integer_cmin"] += 1
             if op.get("zeros"):
                 c = np.concatenate([np.zeros(3), c])  # unobserved clones in the count vector: below every cmin
             method = op["method"]
